@@ -23,7 +23,7 @@ LEVEL_NOTE = ("Trusted: Coq kernel, extraction, translator harness/translate/c10
               "calls as binder authority. Return-annotation breakages and non-parameter breakages are outside this property. Keyword names in "
               "calls are distinct; calls use at most 3 positionals in the correspondence (the theorems have no such bound).")
 MODEL = ("Model.C10_diff", "run_C10")
-COQ_TARGETS = ["Proofs/C10_diff.vo"]
+COQ_TARGETS = ["Proofs/C10_diff.vo", "Proofs/C10_complete.vo"]
 RULE = ("exhaustive well-formed signatures over names {a,b,c}, 5 kinds, default in {none,1,2}, <=2 parameters (436 signatures, all ordered pairs) "
         "x 64 call shapes (0..3 positionals x subsets of {a,b,c,z} up to size 3); seeded random pairs of <=4-parameter signatures (thorough: also the "
         "<=3-parameter space sampled). A pair is non-trivial when some call binds old and not new, or fdiff is non-empty; distinct by (old,new) source text")
